@@ -1,4 +1,6 @@
 ------------------------------- MODULE MC_Lex -------------------------------
 EXTENDS SyltLex
-MCAlphabet == <<"a", "e", "1", ".", "\"", "/", "\n", " ", "\t", "-", ">", "<", "=", "!", ":", "'", "+", "@">>
+\* the 18 characters of round 1 plus one stand-in per class of characters outside the token alphabet
+MCAlphabet == <<"a", "e", "1", ".", "\"", "/", "\n", " ", "\t", "-", ">", "<", "=", "!", ":", "'", "+", "@",
+                "%", "^", "~", "`", "&", ";", "$">>
 =============================================================================
